@@ -219,6 +219,7 @@ func rulesExtract(p *Prog, r *Report, eng *Engine) {
 			r.Bad("E1", "flatten|concatenates all", p.pos(ff.Pos()), "flatten does not concatenate every inner list: "+why)
 		}
 	}
+	var dedupFn *ssa.Function
 	// E1c: one string per flattened node — in ExtractLicenses itself, or in a helper that is handed the
 	// flattened nodes and returns the strings
 	{
@@ -238,7 +239,7 @@ func rulesExtract(p *Prog, r *Report, eng *Engine) {
 					continue
 				}
 				for i, a := range c.Call.Args {
-					if a == ssa.Value(flatCall) && i < len(h.Params) && len(findAppendLoops(h)) > 0 {
+					if a == ssa.Value(flatCall) && i < len(h.Params) && (len(findAppendLoops(h)) > 0 || len(findIndexFillLoops(h)) > 0) {
 						mapFn, mapColl, viaHelper = h, h.Params[i], h.Name()
 					}
 				}
@@ -283,6 +284,29 @@ func rulesExtract(p *Prog, r *Report, eng *Engine) {
 				}
 			}
 		}
+		if !ok {
+			// the same as an index fill: out := make([]string, len(nodes)); for i := range nodes { out[i] = text(nodes[i]) }
+			for _, fl := range findIndexFillLoops(mapFn) {
+				if mapColl != nil && fl.Coll != mapColl {
+					why = "the string loop does not range over the flattened nodes"
+					continue
+				}
+				pv := qz.prov(fl.Val, 0)
+				if !(strings.Contains(pv, "reconstructedLicenseString(elem(") || strings.Contains(pv, ").reconstructedLicenseString(")) {
+					why = "the stored string is not the canonical text of the current node: " + pv
+					continue
+				}
+				if !isElemTextOf(fl.Val, fl.Coll, fl.Index) {
+					why = "the stored string is not taken from the node at the same position"
+					continue
+				}
+				if viaHelper != "" && !fl.Returned {
+					why = viaHelper + " does not return the list it builds"
+					continue
+				}
+				ok = true
+			}
+		}
 		if ok {
 			r.OK("E1", "ExtractLicenses|one string per node", p.pos(ext.Pos()), "full range, unconditional", viaHelper, true)
 		} else {
@@ -295,7 +319,9 @@ func rulesExtract(p *Prog, r *Report, eng *Engine) {
 					continue
 				}
 				pv := qz.prov(ret.Results[0], 0)
-				if strings.HasPrefix(pv, "spdxexp.removeDuplicateStrings(") {
+				if dc, isCall := ret.Results[0].(*ssa.Call); isCall && dc.Call.StaticCallee() != nil && p.InModule(dc.Call.StaticCallee()) && len(dc.Call.Args) == 1 && isStringSlice(dc.Type()) && isStringSlice(dc.Call.Args[0].Type()) {
+					// the de-duplication is whatever in-module ([]string) []string function the result goes through; E2 judges it
+					dedupFn = dc.Call.StaticCallee()
 					r.OK("E1", "ExtractLicenses|result", p.pos(ret.Pos()), "de-duplicated accumulator", "", false)
 				} else {
 					r.Bad("E1", "ExtractLicenses|result", p.pos(ret.Pos()), "the result is not the de-duplicated list of all strings: "+pv)
@@ -305,8 +331,8 @@ func rulesExtract(p *Prog, r *Report, eng *Engine) {
 	}
 
 	// E2
-	if dd := p.Func(p.ExpPkg, "removeDuplicateStrings"); dd == nil {
-		r.Unknown("E2", "anchor", "-", "unresolved anchor: removeDuplicateStrings")
+	if dd := dedupFn; dd == nil {
+		r.Unknown("E2", "anchor", "-", "unresolved anchor: the de-duplication applied to the result of ExtractLicenses")
 	} else {
 		r.Funcs[p.shortKey(dd)] = true
 		fb := newBoundsProver(p, eng).forFn(dd)
@@ -561,4 +587,122 @@ func rulesExtract(p *Prog, r *Report, eng *Engine) {
 		}
 	}
 	_ = types.Typ
+}
+
+
+func isStringSlice(t types.Type) bool {
+	sl, ok := t.Underlying().(*types.Slice)
+	return ok && isStringType(sl.Elem())
+}
+
+// fillLoop: out := make([]T, len(coll)); for i := range coll { out[i] = f(coll[i]) } — every slot is written
+// exactly once, unconditionally, in a full forward range over coll.
+type fillLoop struct {
+	Make     *ssa.MakeSlice
+	Coll     ssa.Value
+	Index    ssa.Value
+	Val      ssa.Value
+	Returned bool
+}
+
+func findIndexFillLoops(fn *ssa.Function) []fillLoop {
+	var out []fillLoop
+	for _, b := range fn.Blocks {
+		for _, in := range b.Instrs {
+			ms, ok := in.(*ssa.MakeSlice)
+			if !ok {
+				continue
+			}
+			ln, ok := ms.Len.(*ssa.Call)
+			if !ok {
+				continue
+			}
+			if bi, ok := ln.Call.Value.(*ssa.Builtin); !ok || bi.Name() != "len" {
+				continue
+			}
+			coll := ln.Call.Args[0]
+			fl := fillLoop{Make: ms, Coll: coll}
+			good := true
+			var st *ssa.Store
+			for _, ref := range *ms.Referrers() {
+				switch t := ref.(type) {
+				case *ssa.IndexAddr:
+					if isRangeIndexOf(t.Index, coll) != nil {
+						good = false
+						break
+					}
+					for _, rr := range *t.Referrers() {
+						s2, isSt := rr.(*ssa.Store)
+						if !isSt || s2.Addr != ssa.Value(t) || st != nil {
+							good = false
+							break
+						}
+						st = s2
+						fl.Index, fl.Val = t.Index, s2.Val
+					}
+				case *ssa.Return:
+					fl.Returned = true
+				case *ssa.DebugRef:
+				case *ssa.Call:
+					// handed on (to the de-duplication) after the loop
+				default:
+					good = false
+				}
+			}
+			if !good || st == nil {
+				continue
+			}
+			// the store is unconditional in its loop: its block dominates every back edge of the range header
+			hdr := rangeHeaderOf(fl.Index)
+			if hdr == nil {
+				continue
+			}
+			uncond := true
+			for _, pr := range hdr.Preds {
+				if hdr.Dominates(pr) && !(st.Block() == pr || st.Block().Dominates(pr)) {
+					uncond = false
+				}
+			}
+			if uncond {
+				out = append(out, fl)
+			}
+		}
+	}
+	return out
+}
+
+// rangeHeaderOf: the loop header of a range induction variable (phi+1 of the range form, or the phi of the
+// classic form).
+func rangeHeaderOf(idx ssa.Value) *ssa.BasicBlock {
+	switch t := idx.(type) {
+	case *ssa.Phi:
+		return t.Block()
+	case *ssa.BinOp:
+		if phi, ok := t.X.(*ssa.Phi); ok {
+			return phi.Block()
+		}
+	}
+	return nil
+}
+
+// isElemTextOf: v is computed from coll[idx] (the element at the same position), through loads and calls
+// that take it as their only argument.
+func isElemTextOf(v ssa.Value, coll, idx ssa.Value) bool {
+	for d := 0; d < 6; d++ {
+		switch t := v.(type) {
+		case *ssa.UnOp:
+			if ia, ok := t.X.(*ssa.IndexAddr); ok && t.Op == token.MUL {
+				return ia.X == coll && ia.Index == idx
+			}
+			v = t.X
+		case *ssa.Call:
+			if len(t.Call.Args) != 1 {
+				return false
+			}
+			v = t.Call.Args[0]
+		default:
+			return false
+		}
+	}
+	return false
 }
